@@ -59,6 +59,25 @@ class C07(Prop):
         'the end-of-run outcome (force_failure => failure) is a three-line model of RunTest; the full run model belongs to C01-C05',
     ]
 
+    manifest = {
+        'text': 'Theorems: C07_text_repr_roundtrip - for every str/bytes (any code points incl. quotes, backslashes, newlines, controls, non-printables, '
+                'astral, lone surrogates), multiline None/True/False and every isprintable predicate, evaluating text_repr(s) as a Python literal gives s '
+                '(per-line repr, un-escaping of quotes, joining with real newlines, the triple-quote escaping loop, the backslash-newline opener; on top of '
+                'a model of repr() and of literal evaluation that is itself proved to round-trip). C07_str_total / C07_describe_total / '
+                'C07_mismatch_error_str_total - in an error monad whose failure sources are those of the code (inherited Matcher.__str__ per a table '
+                'extracted from the tree on every run, unset Mismatch._description, %-formatting arity), str(matcher), describe(), get_details() and '
+                'str(MismatchError) (verbose or not, annotated or not) succeed for every well-formed stock matcher expression of any depth and every value. '
+                'C07_assertThat_iff / C07_expectThat / C07_details_nonclobbering - assertThat and assert_that raise MismatchError iff match() returned a '
+                'mismatch; expectThat never raises, forces the failure; details are attached under fresh names (pigeonhole proof for addDetailUniqueName). '
+                'Tied to the code by a differential check (real str()/describe()/MismatchError, text_repr vs ast.literal_eval, real TestCase runs).',
+        'note': 'partial: finding predicateTupleMatchee (MatchesPredicate on a tuple matchee raises TypeError while building its Mismatch) excluded; '
+                'repr/pformat/%-formatting of values assumed total; describe() of opaque-leaf mismatches tested, not proved; pyRepr/pyEval are models of '
+                'CPython validated against repr/ast.literal_eval; the end-of-run outcome is a three-line model of RunTest',
+        'technique': 'Lean 4: list-level proof of the text_repr round trip (hex codec, escape atoms, replace state machine, triple-quote loop), structural '
+                     'induction over matcher expressions in an error monad with a table regenerated from the tree, pigeonhole argument for unique detail '
+                     'names; executable spec shared with a differential correspondence check',
+    }
+
     def __init__(self):
         self.unmodelled = None
 
